@@ -18,6 +18,7 @@ RULE = (
     "blocks that are not physically adjacent, or reads the partial last block, or block size != 2 MiB, or legacy footer."
     ' Dynamic header and BAT also placed at 4 GiB - 512, 4 GiB, 4 GiB + 512 and 1 TiB; images also opened through a minimal file object (incl. seek() returning None) or by a second reader on the same handle after the first was dropped.'
 )
+RULE += ' Round 10: transient OSError then retry; content flavours; two readers over one handle; guest data ending in a nested VHD footer; block sizes that are not powers of two.'
 ASSUMPTIONS = [
     "dynamic block sizes are powers of two >= 4096: below that the sector-bitmap size (ceil vs floor of sectors/8) is "
     "ambiguous between the specification text and the reference implementations, so it is not generated",
